@@ -200,4 +200,42 @@ def tstate (w : Nat) (t : TState) : List TOp → TState
   | [] => t
   | op :: rest => tstate w (tstep w t op).1 rest
 
+/-! ## several bit-field keys, and bit-field VALUES moved between keys by the value commands
+
+`Memory.get(key)` answers the stored `Bitarray` and `set` / `set_many` (also a transaction's write
+buffer and its commit) store what they are given through `_set`, i.e. `copy(value)`:
+`set(dst, await get(src))` makes `dst` hold a COPY of `src`'s array.  In this model an array is a
+number, so a copy is the same number and the two keys cannot alias by construction — which is the
+claim: after such a copy the two keys evolve independently. -/
+
+/-- the store: every key's slot under one clock (each key carries the clock; `adv` moves them all) -/
+abbrev MState := Nat → TState
+
+def MState.set (m : MState) (k : Nat) (t : TState) : MState := fun k' => if k' = k then t else m k'
+
+inductive MOp where
+  | on (k : Nat) (op : TOp)                 -- a bit-field / key command on one key (`op` is not `adv`)
+  | adv (dt : Nat)                          -- time passes for every key
+  | copy (src dst : Nat) (ttl : Nat)        -- `v = await get(src); if v is not None: await set(dst, v, expire=ttl)`
+  deriving Repr
+
+/-- one command; `copy` answers `[1]` when there was something to copy
+```
+get:  return await self._get(key, default=default)          # the stored Bitarray, or None (run-out entries are purged)
+set:  self._set(key, value, expire)                          # store[key] = (deadline, copy(value))
+``` -/
+def mstep (w : Nat) (m : MState) : MOp → MState × List Nat
+  | .on k op => let r := tstep w (m k) op; (m.set k r.1, r.2)
+  | .adv dt => (fun k => (tstep w (m k) (.adv dt)).1, [])
+  | .copy src dst ttl =>
+    let r := tget (m src)
+    let m' := m.set src r.1
+    match r.2 with
+    | none => (m', b2l false)
+    | some s => (m'.set dst (tset (m' dst) s.a ttl), b2l true)
+
+def mrun (w : Nat) (m : MState) : List MOp → List (List Nat)
+  | [] => []
+  | op :: rest => let r := mstep w m op; r.2 :: mrun w r.1 rest
+
 end CashewsVerif.Bits
